@@ -103,6 +103,18 @@ pub enum Step {
     Scan { n: u8 },
     /// C12: supplying a key pair together with open mode must be rejected (BadArgument)
     BadOpen { n: u8 },
+    /// faulty-network arm: replica `to` issues request `id` (node count from its current state)
+    NetSend { id: u32, to: u8, req: Req },
+    /// the writer serves request `id` from its current state (the response replaces the request)
+    NetServe { id: u32 },
+    /// response `id` reaches its replica (may be stale, duplicated or reordered)
+    NetDeliver { id: u32 },
+    /// process death of node n; `back` storage ops of its last call are lost (0 = clean restart)
+    CrashRestart { n: u8, back: u32 },
+    /// faults have stopped: the replicator must bring every replica to hold every non-cleared block
+    Converge,
+    /// bookkeeping from the network simulator (fault counters, simulated time)
+    Note { what: String, v: u64 },
 }
 
 impl Step {
@@ -120,14 +132,24 @@ impl Step {
             | Step::RawRequest { n, .. }
             | Step::RawProof { n, .. }
             | Step::BadOpen { n }
+            | Step::CrashRestart { n, .. }
             | Step::Scan { n } => *n,
+            Step::NetSend { to, .. } => *to,
+            Step::NetServe { .. } | Step::NetDeliver { .. } | Step::Converge | Step::Note { .. } => 0,
             Step::Sync { to, .. } | Step::Tamper { to, .. } | Step::TamperAll { to, .. } => *to,
         }
     }
     pub fn is_mutating(&self) -> bool {
         !matches!(
             self,
-            Step::Get { .. } | Step::Has { .. } | Step::Info { .. } | Step::Scan { .. } | Step::BadOpen { .. }
+            Step::Get { .. }
+                | Step::Has { .. }
+                | Step::Info { .. }
+                | Step::Scan { .. }
+                | Step::BadOpen { .. }
+                | Step::Note { .. }
+                | Step::NetSend { .. }
+                | Step::NetServe { .. }
         )
     }
 }
@@ -246,6 +268,8 @@ pub struct World {
     pub trace_log: Vec<String>,
     pub keep_trace_log: bool,
     pub distinct_states: std::collections::BTreeSet<u64>,
+    pub pool: std::collections::BTreeMap<u32, crate::net::Msg>,
+    pub sim_time: u64,
 }
 
 pub fn key_from_seed(seed: u64) -> SigningKey {
@@ -316,10 +340,10 @@ impl<T> Res<T> {
 macro_rules! call_core {
     ($self:ident, $n:expr, |$c:ident| $body:expr) => {{
         let mut $c = $self.nodes[$n].core.take().expect("core present");
-        let g = exec::run(async { $body });
+        let g = $crate::exec::run(async { $body });
         match g {
-            Guarded::Panic(_) | Guarded::Hang(_) => {
-                let _ = catch_unwind(AssertUnwindSafe(move || drop($c)));
+            $crate::exec::Guarded::Panic(_) | $crate::exec::Guarded::Hang(_) => {
+                let _ = std::panic::catch_unwind(std::panic::AssertUnwindSafe(move || drop($c)));
                 $self.nodes[$n].dead = true;
             }
             _ => {
@@ -371,6 +395,8 @@ impl World {
             trace_log: vec![],
             keep_trace_log: false,
             distinct_states: Default::default(),
+            pool: Default::default(),
+            sim_time: 0,
         };
         for n in 0..=(cfg.replicas as usize) {
             let disk = Disk::new();
@@ -640,6 +666,18 @@ impl World {
                 self.scan_and_judge(n, "scan");
             }
             Step::BadOpen { .. } => self.do_bad_open(n),
+            Step::NetSend { id, to, req } => crate::net::do_send(self, *id, *to as usize, req),
+            Step::NetServe { id } => crate::net::do_serve(self, *id),
+            Step::NetDeliver { id } => crate::net::do_deliver(self, *id),
+            Step::CrashRestart { back, .. } => crate::net::do_crash_restart(self, n, *back),
+            Step::Converge => crate::net::do_converge(self),
+            Step::Note { what, v } => {
+                if what == "sim_time" {
+                    self.sim_time = *v;
+                } else {
+                    *self.stats.probes.entry(what.clone()).or_insert(0) += *v;
+                }
+            }
         }
         if step.is_mutating() && self.aborted.is_none() {
             match self.cfg.scan {
